@@ -1,6 +1,8 @@
 """C06 - decoded views are faithful and supplied values read back unchanged."""
 from ..rules.quoters import PyQuoter, configurations, inner_quoters
 from ..rules.unquoters import QS_DELIMS, Unquoter
+from ..rules.kindrules import k2_k3, k4, make_kinds
+from ..rules import tables
 from .common import quoter_audits
 
 META = {}
@@ -11,7 +13,9 @@ def run(ctx):
         "Static analysis. Decided: (EM-PYU/EM-CU) in both unquoters decoded text is appended raw only when it is not a "
         "query delimiter under qs, not in `unsafe` and not in `ignore`; '+' becomes space only under qs; everything else "
         "is a verbatim slice of the input or re-quoted; (T8) the four unquoter configurations match the accessors' "
-        "contract (path: '+' unsafe; path_safe: '/' and '%' ignored; query_string: the only qs reader); the re-quoter "
+        "contract (path: '+' unsafe; path_safe: '/' and '%' ignored; query_string: the only qs reader); (K4) each decoded "
+        "accessor applies that unquoter to the raw text of its own component; (K2/T4) the write side uses non-requoting "
+        "quoters that escape '%' (and '+ & = ;' for query pairs); the re-quoter "
         "used for query delimiters escapes '+ = & ;'. Not decided: the slice arithmetic that flushes a broken UTF-8 run.")
     model = ctx.model
     cfgs = configurations(model)
@@ -30,6 +34,14 @@ def run(ctx):
                 ctx.ob("T8", u.qual, f"re-quoter self.{site['quoter']} for decoded query delimiters", not bad,
                        f"decoded {''.join(sorted(bad))!r} would be written back literally by the re-quoter (changes the pair structure)",
                        sample="'+=&;' are escaped by the qs re-quoter")
+    K = make_kinds(model)
+    k4(ctx, K)
+    k2_k3(ctx, K)
+    # the write side: quoters that receive decoded text escape '%' (and the pair quoter '+ & = ;')
+    for name, (cls, cfg) in cfgs.items():
+        if cls == "_Quoter" and not cfg["requote"]:
+            tables.check_policy(ctx, "py", name, cfg, pq.policy(cfg), {"pct"})
+    tables.check_policy(ctx, "py", "QUERY_PART_QUOTER", cfgs["QUERY_PART_QUOTER"][1], pq.policy(cfgs["QUERY_PART_QUOTER"][1]), {"upper", "term"})
     # T8: configurations against the statement
     want = {"PATH_UNQUOTER": dict(unsafe_has="+", qs=False), "PATH_SAFE_UNQUOTER": dict(unsafe_has="+", ignore_has="/%", qs=False),
             "UNQUOTER": dict(qs=False), "QS_UNQUOTER": dict(qs=True)}
